@@ -43,7 +43,7 @@ def to_line(e):
         return '%s(%s)' % (k, to_line(e[1]))
     if k == 'ite':
         return 'ite(%s,%s,%s)' % tuple(to_line(a) for a in e[1:])
-    if k in ('le', 'ge', 'lt', 'gt', 'eq'):
+    if k in ('le', 'ge', 'lt', 'gt', 'eq', 'iff'):
         return '%s(%s,%s)' % (k, to_line(e[1]), to_line(e[2]))
     raise ValueError(k)
 
@@ -73,7 +73,7 @@ def to_nl(e):
         return ('if', to_nl(e[1]), to_nl(e[2]), to_nl(e[3]))
     if k == 'count':
         return ('count', [to_nl(a) for a in e[1]])
-    if k in ('le', 'ge', 'lt', 'gt', 'eq'):
+    if k in ('le', 'ge', 'lt', 'gt', 'eq', 'iff'):
         return (k, to_nl(e[1]), to_nl(e[2]))
     if k in ('and', 'or'):          # the NL format needs >= 3 arguments for forall/exists: two arguments = the binary operator
         xs = [to_nl(a) for a in e[1]]
@@ -149,9 +149,11 @@ class FragGen:
                 lo, hi = self.vars[a][0], self.vars[a][1]
                 return (rel, ('v', a), ('c', F(rng.rint(int(lo), int(hi)))))
             return (rel, self.num(max(d - 1, 0), True), self.num(0, True) if rng.chance(1, 2) else ('c', F(rng.rint(-2, 4))))
-        k = rng.below(3)
+        k = rng.below(4)
         if self.tame and ((k == 0 and parent == 'and') or (k == 1 and parent == 'or')):
             k = 2
+        if k == 3:                  # equivalence of two logical expressions (round 7: `iff` is in the fragment of `convert`)
+            return ('iff', self.log(d - 1, 'iff'), self.log(d - 1, 'iff'))
         if k == 0:
             return ('and', [self.log(d - 1, 'and') for _ in range(rng.rint(2, 3))])
         if k == 1:
@@ -496,7 +498,7 @@ def oracle_says(m, grids, rd, budget_s=8.0):
 # enforced = (model, acceptance set) pairs on which the reference converter claims to mirror the real one (shortcut=0, inside its
 # fragment predicate) or refuses.  Floor on enforced/pairs: what the unchanged tree gives (see design notes, round 6) minus a margin;
 # flagging more inputs as shortcut on the Lean side, or a generator drifting out of the fragment, falls below it.
-ENFORCED_FLOOR = 0.43
+ENFORCED_FLOOR = 0.45
 # (was pending on the Lean side until 032a60f: resBnd of min/max with an infinite bound) switch kept for bisecting: when False the
 # native half of the refusal family is compared and counted like a flagged pair
 REFUSAL_FAMILY_NATIVE_ENFORCED = True
@@ -531,7 +533,7 @@ def run_refconv(ck, drv, exe, n_models, seed_base, wd, log=None):
           'by_acc': {'native': [0, 0], 'linear': [0, 0]},
           'by_stratum': {'no-logical-rows': [0, 0], 'logical-rows': [0, 0]},
           'by_family': {f: {'pairs': 0, 'enforced': 0, 'agree': 0, 'flagged': 0, 'oracle_fail': 0} for f in FAMILIES},
-          'def_kinds': {}, 'with_aux_vars': 0, 'rows_compared': 0, 'real_refusal_kinds': {}, 'enforced_floor': ENFORCED_FLOOR}
+          'def_kinds': {}, 'with_aux_vars': 0, 'with_iff': 0, 'rows_compared': 0, 'real_refusal_kinds': {}, 'enforced_floor': ENFORCED_FLOOR}
     stub = os.path.join(wd, 'rc')
     oracle_cap = 6 if ck.tier == 'quick' else 150       # flagged-and-different pairs checked with the exact oracle (regular family)
     sig_cap = 60 if ck.tier == 'quick' else 600          # failing models passed to the end-to-end diagnosis
@@ -637,6 +639,7 @@ def run_refconv(ck, drv, exe, n_models, seed_base, wd, log=None):
                     kd = dd.split(';')[2]
                     st['def_kinds'][kd] = st['def_kinds'].get(kd, 0) + 1
                 st['with_aux_vars'] += c['M'] > c['N']
+                st['with_iff'] += 'iff(' in line
                 st['rows_compared'] += len(c['C'])
                 st['by_acc'][accn][1] += 1
                 st['by_stratum'][stratum][1] += 1
